@@ -3,11 +3,15 @@
 package measure
 
 import (
+	"errors"
 	"fmt"
+	"os"
 	"sort"
 	"strings"
 	"sync"
 	"sync/atomic"
+
+	"github.com/apache/skywalking-banyandb/banyand/internal/storage"
 )
 
 // Verification hooks, tag "verif": a registry of the live tsTables with the channels of their loops, a
@@ -130,4 +134,20 @@ func VerifMerge(root string, ids []uint64) (uint64, error) {
 		return 0, err
 	}
 	return np.ID(), nil
+}
+
+// VerifTakeFileSnapshot calls TakeFileSnapshot of a live table.
+func VerifTakeFileSnapshot(root, dst string) error {
+	v, ok := verifTables.Load(root)
+	if !ok {
+		return fmt.Errorf("no table %s", root)
+	}
+	if err := os.MkdirAll(dst, 0o755); err != nil {
+		return err
+	}
+	_, err := v.(*verifLoop).tst.TakeFileSnapshot(dst)
+	if err != nil && errors.Is(err, storage.ErrNoCurrentSnapshot) {
+		return nil
+	}
+	return err
 }
